@@ -495,6 +495,48 @@ def history_scenarios(tmpdir):
     return out
 
 
+def explicit_end_nodes(ctx, scs):
+    """NPoint with its surface / top node given explicitly (constructor keyword): for every combination of the
+    scenario's values the outcome is decided by the documented rule alone -- node pressures strictly decreasing from
+    the explicit surface node to the explicit top node and every slope below the limit, else an invalid model; a
+    valid one stays inside its control temperatures.  Ties (equal pressures, slope at the limit) are not judged."""
+    import itertools
+    from ..fx_profiles import pgrid
+    for sc in scs:
+        if not sc.name.startswith('npoint1:pends'):
+            continue
+        for vals in itertools.product(*sc.dims):
+            kw = sc._kwargs(list(vals))
+            g = sc._grid(list(vals))
+            n, P, _ = pgrid(g)
+            ps = kw.get('P_surface'); pt = kw.get('P_top')
+            Pn = [P[0] if ps is None else ps, 1e3, P[-1] if pt is None else pt]
+            Tn = [1500.0, kw.get('T1', 1200.0), 500.0]
+            lim = 1000.0
+            inverted = any(a < b for a, b in zip(Pn, Pn[1:]))
+            tie = any(a == b for a, b in zip(Pn, Pn[1:]))
+            slopes = [abs((Tn[i + 1] - Tn[i]) / (np.log10(Pn[i + 1]) - np.log10(Pn[i]))) for i in range(2)] if not (inverted or tie) else []
+            steep = any(s_ > lim * (1 + 1e-9) for s_ in slopes)
+            tie = tie or any(abs(s_ - lim) <= lim * 1e-9 for s_ in slopes)
+            if tie and not inverted:
+                continue
+            h = sc.fresh(list(vals))
+            try:
+                prof, exc = np.asarray(sc.observe(h), dtype=float), None
+            except Exception as e:
+                prof, exc = None, type(e).__name__
+            cls = '%s:explicit-ends:%s' % (sc.name, 'inverted' if inverted else 'steep' if steep else 'valid')
+            vec = dict(kind_='explicit_ends', scenario=sc.name, vals=list(vals))
+            d = 'nodes P %r T %r limit %r on grid %r: implementation %s' % (Pn, Tn, lim, g, exc or 'returned a profile')
+            if inverted or steep:
+                ctx.verdict('nonphysical_rejected', exc is not None and 'Invalid' in exc, cls=cls, detail=d, vector=vec)
+            else:
+                if ctx.verdict('physical_not_rejected', exc is None, cls=cls, detail=d, vector=vec):
+                    ctx.verdict('finite_positive', prof.shape == (n,) and bool(np.all(np.isfinite(prof)) and np.all(prof > 0)), cls=cls, detail=d, vector=vec)
+                    ctx.verdict('within_control_range', bool(np.all(prof >= min(Tn) * (1 - RTOL)) and np.all(prof <= max(Tn) * (1 + RTOL))),
+                                cls=cls, detail=d + ' profile %r' % prof, vector=vec)
+
+
 def run_histories(ctx, nwalks):
     import tempfile, shutil
     from .. import history
@@ -503,7 +545,10 @@ def run_histories(ctx, nwalks):
     try:
         scs = history_scenarios(tmp)
         dead = check_setters_took_effect(scs)
-        if dead:
+        explicit_end_nodes(ctx, scs)
+        if dead and not ctx.has_violations():
+            # a vacuity guard of the walks, not a clause: when the implementation under test already violates a clause
+            # (e.g. it ignores an explicit end node, caught by explicit_end_nodes above) the verdicts stand
             raise Machinery('history scenarios with a control that changes nothing on a fresh object: %r' % dead)
         nt = history.run_history(ctx, scs, nwalks)
         ctx.note('history walks: %d traces over %d long-lived profile objects (controls via fitting parameters, property setters, re-initialisation)' % (nt, len(scs)))
@@ -647,7 +692,13 @@ def guillot_event(r):
         e['how'] = 'nan-or-nonpositive'
         return e, 'profile %r' % prof[:6]
     detail = 'T[0]=%r T[-1]=%r' % (float(prof[0]), float(prof[-1]))
-    if cat == 'physical' and prof.shape == (n,):
+    # the closed form is linear in alpha: outside [0, 1] it is still the published expression wherever it is positive
+    extrap = (cat == 'other' and min(p['kir'], p['kv1'], p['kv2']) > 0 and p['tirr'] >= 0 and p['tint'] >= 0
+              and (p['tirr'] > 0 or p['tint'] > 0))
+    if extrap and prof.shape == (n,):
+        T4x, _ = guillot_indep(p, P, float(planet().gravity))
+        extrap = min(T4x) > 1e-6 * max(T4x)
+    if (cat == 'physical' or extrap) and prof.shape == (n,):
         T4, parts = guillot_indep(p, P, float(planet().gravity))
         if r.get('conditioned'):
             Texp = np.array(T4) ** 0.25
@@ -656,7 +707,7 @@ def guillot_event(r):
             if bad.any():
                 i = int(np.argmax(bad))
                 detail = 'layer %d: T=%r closed form %r' % (i, float(prof[i]), float(Texp[i]))
-        if r.get('assemble'):
+        if r.get('assemble') and cat == 'physical':
             U = max(T4)
             an, ad = Fraction(p['alpha']).limit_denominator(64).numerator, Fraction(p['alpha']).limit_denominator(64).denominator
             if Fraction(an, ad) == Fraction(p['alpha']) and ad <= 8:
@@ -775,6 +826,13 @@ def guillot_recipes(rng, n):
     g2 = abs(p['kv2'] / p['kir']) if p['kir'] else 0
     cond = all(1e-3 <= x <= 1e3 for x in (g1, g2))
     out.append(dict(g, ev='guillot', n=n, p=p, conditioned=cond, assemble=False))
+    # alpha outside its documented bounds with two different visible streams: still the closed form (checked where positive)
+    g = rgrid100(rng)
+    p = dict(tirr=float(rng.randint(100, 3000)), tint=float(rng.randint(0, 1000)), kir=10.0 ** rng.uniform(-4, 0),
+             alpha=rng.choice([-0.25, 1.2, 1.5, -1.0, 2.0, rng.uniform(-2, 0), rng.uniform(1, 3), 1.0 + 2.0 ** -rng.randint(1, 20)]))
+    p['kv1'] = p['kir'] * 2.0 ** rng.uniform(-6, 6)
+    p['kv2'] = p['kv1'] * 2.0 ** (rng.choice([-1, 1]) * rng.uniform(0.5, 5))
+    out.append(dict(g, ev='guillot', n=n, p=p, conditioned=all(1e-3 <= x / p['kir'] <= 1e3 for x in (p['kv1'], p['kv2'])), assemble=False))
     return out
 
 
@@ -976,6 +1034,16 @@ def replay(ctx, violations):
             tmp = tempfile.mkdtemp(prefix='c12files_')
             try:
                 run_file_vector(ctx, {k: w for k, w in v.items() if k not in ('kind_', 'idx')}, tmp, v.get('idx', 0))
+            finally:
+                shutil.rmtree(tmp, ignore_errors=True)
+        elif v.get('kind_') == 'explicit_ends':
+            import tempfile, shutil
+            tmp = tempfile.mkdtemp(prefix='c12hist_')
+            try:
+                scs = [s_ for s_ in history_scenarios(tmp) if s_.name == v['scenario']]
+                for s_ in scs:
+                    s_.dims = [[x if not isinstance(x, list) else tuple(x)] for x in v['vals']]
+                explicit_end_nodes(ctx, scs)
             finally:
                 shutil.rmtree(tmp, ignore_errors=True)
         elif 'owner' in v:
